@@ -58,6 +58,7 @@ type inst struct {
 	w     *World
 	seeds *simrt.RNG
 	mode  simrt.HashMode
+	zt    bool // extreme-value hash variant: one setting per scenario (background tasks of both instances hash under whichever instance was used last)
 }
 
 func hashModeOf(s string) simrt.HashMode {
@@ -72,7 +73,12 @@ func hashModeOf(s string) simrt.HashMode {
 	return simrt.HashDet
 }
 
-func (in *inst) use() { simrt.UseHash(in.mode, in.cfg.CollideN, in.seeds) }
+func (in *inst) use() {
+	simrt.UseHash(in.mode, in.cfg.CollideN, in.seeds)
+	// the extreme-value variant of the deterministic modes (see setHash): a
+	// function of the instance, never left over from an earlier case
+	simrt.SetHashZeroTop(in.zt)
+}
 
 type SeqResult struct {
 	Violations []Violation
@@ -101,6 +107,7 @@ func RunSeq(sc *SeqScenario) *SeqResult {
 	cacheFam := sc.Family == "cache"
 	mk := func(cfg *InstCfg) *inst {
 		in := &inst{cfg: cfg, seeds: simrt.NewRNG(cfg.SeedTag, 0x7AB1E5EED), mode: hashModeOf(cfg.HashMode)}
+		in.zt = sc.A.HashMode != "native" && sc.A.HashMode != "collide" && (sc.B == nil || sc.B.HashMode == sc.A.HashMode) && simrt.Mix64(sc.A.SeedTag^0x70B0)%6 == 0
 		in.use()
 		ml := cfg.MinLen
 		if ml <= 0 {
